@@ -1053,6 +1053,11 @@ class _SSeq:
         return self._new(self.items[:len(c)]) == p
 
     def endswith(self, p, *a):
+        if isinstance(p, tuple):
+            r = False
+            for q in p:
+                r = r | (self.endswith(q)) if not isinstance(r, bool) or not r else True
+            return r
         c = self._coerce(p)
         if len(c) > len(self.items):
             return False
